@@ -58,18 +58,25 @@ ValidEv ==
 
 \* ---------------------------------------------------------------------- C14
 LongOrCyclic(s) == HitsCycle(g, s) \/ ChainLen(g, s, {s}) >= MaxRedirectNodes - 1
+\* F12 in general: some specifier on the redirect chain of s is a redirect source *and* has an entry of its own (a loader
+\* that answers under another final specifier produces this outside cycles too): the walk yields that entry, lookups
+\* follow the redirect past it
+RECURSIVE ChainSet(_, _)
+ChainSet(s, seen) == IF s \in seen \/ s \notin DOMAIN g.redirects THEN seen \cup {s} ELSE ChainSet(g.redirects[s], seen \cup {s})
+EntryOnChain(s) == \E t \in ChainSet(s, {}) : t \in DOMAIN g.redirects /\ HasSlot(g, t)
+LocS(s) == LongOrCyclic(s) \/ EntryOnChain(s)
 ModOrNone(r) == IF r.t = "mod" THEN r ELSE [t |-> "none"]
 LookupEv ==
   /\ Rec[l].ev = "lookup"
   /\ LET e == Rec[l]
          s == e.s
          reached == Reached(g, s)
-         loc == LongOrCyclic(s)
+         loc == LocS(s)
          tg == TryGet(g, s)
          viaT == IF reached.t = "mod" /\ g.slots[reached.s].cls = "js" /\ IsOk(g.slots[reached.s].tdep)
                  THEN Reached(g, g.slots[reached.s].tdep.ok) ELSE reached
          locT == loc \/ (reached.t = "mod" /\ g.slots[reached.s].cls = "js" /\ IsOk(g.slots[reached.s].tdep)
-                         /\ LongOrCyclic(g.slots[reached.s].tdep.ok))
+                         /\ LocS(g.slots[reached.s].tdep.ok))
      IN /\ Check("C14", "resolve-idempotent", e.resolve2 = e.resolve, "F11/F2", loc /\ e.resolve = Resolve(g, s), e.resolve2, e.resolve)
         /\ Check("C14", "get", e.get = ModOrNone(reached), "F2/F12", loc /\ e.get = Get(g, s), e.get, reached)
         /\ Check("C14", "try_get", e.tryget = reached, "F2/F12", loc /\ e.tryget = tg, e.tryget, reached)
@@ -83,8 +90,8 @@ SpecifiersEv ==
   /\ LET obs == { <<Rec[l].list[i][1], Rec[l].list[i][2]>> : i \in DOMAIN Rec[l].list }
          decl == SpecifiersDecl(g)
          \* F3 (sources of >= 2-hop chains omitted) is fixed; what remains is the node cap / cycles of resolve()
-         f3 == obs = SpecifiersCoded(g) /\ \A p \in decl \ obs : LongOrCyclic(p[1])
-         f12 == obs = SpecifiersCoded(g) /\ \A p \in obs \ decl : HitsCycle(g, p[1]) \/ HasSlot(g, p[1])
+         f3 == obs = SpecifiersCoded(g) /\ \A p \in decl \ obs : LocS(p[1])
+         f12 == obs = SpecifiersCoded(g) /\ \A p \in obs \ decl : HitsCycle(g, p[1]) \/ HasSlot(g, p[1]) \/ EntryOnChain(p[1])
      IN /\ Check("C14", "specifiers-complete", decl \subseteq obs, "F2/F11", f3, obs, decl)
         /\ Check("C14", "specifiers-sound", obs \subseteq decl, "F12", f12, obs, decl)
   /\ l' = l + 1 /\ UNCHANGED g
@@ -98,8 +105,8 @@ ResDepEv ==
                  decl == ResolveDepDecl(g, dep, e.pt)
                  coded == ResolveDepCoded(g, dep, e.pt)
                  loc == \E r \in {dep.code, dep.type} : IsOk(r) /\
-                          (LongOrCyclic(r.ok) \/ (Reached(g, r.ok).t = "mod" /\ IsOk(g.slots[Reached(g, r.ok).s].tdep)
-                                                  /\ LongOrCyclic(g.slots[Reached(g, r.ok).s].tdep.ok)))
+                          (LocS(r.ok) \/ (Reached(g, r.ok).t = "mod" /\ IsOk(g.slots[Reached(g, r.ok).s].tdep)
+                                                  /\ LocS(g.slots[Reached(g, r.ok).s].tdep.ok)))
                  f10 == e.pt /\ IsOk(dep.type) /\ IsNone(ReachMod(g, dep.type.ok)) /\ IsNone(e.ret)
              IN /\ Check("C14", "resolve_dependency", e.ret = decl, IF f10 THEN "F10" ELSE "F2/F11", e.ret = coded /\ (f10 \/ loc), e.ret, decl)
                 /\ Drift("resolve_dependency-coded", e.ret = coded)
